@@ -103,7 +103,9 @@ pub fn gc_policy_strategy() -> BoxedStrategy<String> {
     let nested = leaf.prop_recursive(2, 6, 3, |inner| {
         prop_oneof![
             prop::collection::vec(inner.clone(), 1..3).prop_map(|v| format!("any({})", v.join(", "))),
-            prop::collection::vec(inner, 1..3).prop_map(|v| format!("all({})", v.join(", "))),
+            // `all()` without children parses and retains everything (the identity of "and"); the
+            // childless `any()` would allow dropping current values and is left out
+            prop::collection::vec(inner, 0..3).prop_map(|v| format!("all({})", v.join(", "))),
         ]
     });
     prop_oneof![3 => leaf2, 2 => nested].boxed()
